@@ -126,7 +126,8 @@ macro_rules! emit_lane {
         if ends.windows(2).any(|w| w[0] == w[1]) { m.count("duplicate_breakpoints"); }
         if k.x < ends[0] { m.count("knot_inside_first_piece"); } else { m.count("knot_outside_first_piece"); }
         let hh = hash_bits(11, pw_nums(&pw).iter().map(|e| e.to_bits()).chain([k.x.to_bits(), k.y.to_bits(), $deg as u64, log as u64]));
-        let mut qs: Vec<f64> = critical_queries(&ends).into_iter().filter(|x| x.is_finite() && x.abs() < 1e6 && (!log || *x > 1e-6)).collect();
+        let qmin = if log { 1e-6 * ends[0].min(1.0) } else { 0.0 };
+        let mut qs: Vec<f64> = critical_queries(&ends).into_iter().filter(|x| x.is_finite() && x.abs() < 1e6 && (!log || *x > qmin)).collect();
         // keep a bounded, seed-chosen subset of the critical queries (the oracle works at 400 bits)
         while qs.len() > 24 {
             let i = r.usize(0, qs.len() - 1);
@@ -170,6 +171,15 @@ macro_rules! real_lane {
             let i = r.usize(1, ends.len() - 1);
             ends[i] = ends[i - 1]; // duplicate breakpoint
         }
+        let mut kscale = 1.0;
+        if log && r.chance(0.12) {
+            // all breakpoints (and the knot) at a tiny or huge common scale
+            kscale = 10f64.powf(if r.chance(0.7) { r.uniform(-14.0, -8.0) } else { r.uniform(1.0, 2.5) });
+            for e in ends.iter_mut() {
+                *e *= kscale;
+            }
+            m.count("log_breakpoints_at_extreme_scale");
+        }
         ends.sort_by(|a, b| a.partial_cmp(b).unwrap());
         if r.chance(0.15) {
             // open-ended last piece, as a user writes it: end = +inf (or just huge)
@@ -182,6 +192,8 @@ macro_rules! real_lane {
         let inside = r.chance(0.75);
         let kx = if !(ends[0].abs() < 1e6) {
             if log { r.uniform(0.3, 3.0) } else { r.uniform(-3.0, 3.0) }
+        } else if kscale != 1.0 {
+            ends[0] * r.uniform(0.3, 1.0)
         } else if inside {
             if log { ends[0] * r.uniform(0.3, 1.0) } else { ends[0] - r.uniform(0.0, 3.0) }
         } else {
